@@ -142,6 +142,10 @@ def structured_inputs(d: int):
     # patch files that end early (no EOF footer, cut inside a header / a size / the data, header only, empty): reported, never read forever
     for nm in ("cut_header_only.ips", "cut_after_record.ips", "cut_in_offset.ips", "cut_in_size.ips", "cut_in_data.ips", "cut_in_rle.ips", "empty.ips"):
         ins.append((f"short-ips:{nm}", org + f".db 1\n.include_ips '{nm}', 0\n.db 2\n"))
+    # existing files with names that are not identifiers (digits, hyphens, blanks, dots): whatever name is derived from them
+    for nm in ODD_NAMES:
+        ins.append((f"odd-file-name:{nm}", org + f".db 1\n.incbin '{nm}'\n.db 2\n"))
+        ins.append((f"odd-file-name-included:{nm}", org + f".db 1\n.include '{nm}'\n.db 2\n"))
     for where in ("relative", "nested", "absolute"):
         for j, d_ in enumerate((".include 'no_such_file_zz.s'", ".incbin 'no_such_file_zz.bin'", ".table 'no_such_file_zz.tbl'", ".include_ips 'no_such_file_zz.ips', 0",
                                 ".include 'sub/dir/no_such_file_zz.s'", ".include '../no_such_file_zz.s'")):
@@ -156,6 +160,22 @@ def structured_inputs(d: int):
     ins.append(("string-with-escapes", org + ".ascii '" + "\\'" * d + "'\n.text '" + "a" * d + "\n"))
     ins.append(("nested-code-arguments", org + ".macro m_c(p) {\n{{p}}\n}\n" + "m_c({\n" * min(d, 20) + ".db k_out\n" + "})\n" * min(d, 20)))
     return ins
+
+
+ODD_NAMES = ["2024", "7", "-", "1-2", "007", "_", "9.bin", "-x.bin", "a b.bin", "(1)", "x.", "..bin"]
+
+
+def _stage_aux() -> None:
+    """the files the structured inputs refer to (written into the worker's scratch directory)"""
+    rec = b"\x02\x00\x00\x00\x03abc"
+    files = {"t15.tbl": "01=a\n02=b\n03=ab\n0405=abc\n",
+             "cut_header_only.ips": {"hex": b"PATCH".hex()}, "cut_after_record.ips": {"hex": (b"PATCH" + rec).hex()},
+             "cut_in_offset.ips": {"hex": (b"PATCH" + rec + b"\x02\x00").hex()}, "cut_in_size.ips": {"hex": (b"PATCH" + rec + b"\x02\x00\x10\x00").hex()},
+             "cut_in_data.ips": {"hex": (b"PATCH" + rec[:-1]).hex()}, "cut_in_rle.ips": {"hex": (b"PATCH" + b"\x02\x00\x00\x00\x00\x00").hex()},
+             "empty.ips": {"hex": ""}}
+    for nm in ODD_NAMES:
+        files[nm] = {"hex": "a1b2c3"}
+    driver.write_files(files)
 
 
 def _shape(text: str) -> str:
@@ -327,12 +347,7 @@ def run_case(case) -> Outcome:
         return out
     if t == "structured":
         nt = 0
-        rec = b"\x02\x00\x00\x00\x03abc"
-        driver.write_files({"t15.tbl": "01=a\n02=b\n03=ab\n0405=abc\n",
-                            "cut_header_only.ips": {"hex": b"PATCH".hex()}, "cut_after_record.ips": {"hex": (b"PATCH" + rec).hex()},
-                            "cut_in_offset.ips": {"hex": (b"PATCH" + rec + b"\x02\x00").hex()}, "cut_in_size.ips": {"hex": (b"PATCH" + rec + b"\x02\x00\x10\x00").hex()},
-                            "cut_in_data.ips": {"hex": (b"PATCH" + rec[:-1]).hex()}, "cut_in_rle.ips": {"hex": (b"PATCH" + b"\x02\x00\x00\x00\x00\x00").hex()},
-                            "empty.ips": {"hex": ""}})
+        _stage_aux()
         deep_dir = os.path.join(driver.workdir(), "a", "b", "c", "d")
         for name, text in structured_inputs(case["depth"]):
             kb = int(name.rsplit("bound=", 1)[1]) if "bound=" in name else None  # iteration count known by construction
@@ -347,6 +362,8 @@ def run_case(case) -> Outcome:
         return out
     if t == "text":
         text = case["text"]
+        if ".inc" in text or ".table" in text:
+            _stage_aux()
         nt = check_text(out, text, case, known_bound=case.get("known_bound"), filename=case.get("filename", "soup.s"))
         out.nontrivial = bool(nt) or _open_ended(text)
         out.labels.append("soup")
